@@ -494,6 +494,56 @@ def server_case(ctx, seed, nclients, mode, clock='steady'):
                 pass
 
 
+def half_close_case(ctx, seed):
+    """The peer finishes SENDING (shutdown of its write side, possibly inside a message) and then waits for
+    our end to hang up: the port yields the complete messages, ends iteration, reports closed - and the peer
+    sees the disconnect (the connection is really released, not just marked closed)."""
+    rng = random.Random(seed)
+    msgs = rand_msgs(rng, rng.randrange(1, 5))
+    stream, ends = stream_of(msgs)
+    cut = rng.choice((len(stream), len(stream), rng.randrange(len(stream) + 1)))
+    want = [m for m, e in zip(msgs, ends) if e <= cut]
+    case = {'kind': 'half-close', 'seed': seed, 'cut': cut}
+    a, b = socket.socketpair()
+    port = SocketPort('peer', 1, conn=a)
+    sleeps = Sleeps(limit=50)
+    orig = mido.ports.sleep
+    mido.ports.sleep = sleeps
+    try:
+        b.sendall(stream[:cut])
+        b.shutdown(socket.SHUT_WR)
+        got = []
+        try:
+            for m in port:
+                got.append(m)
+            ctx.count('iteration ends without exception')
+        except HarnessAbort as exc:
+            ctx.check('iteration ends without exception', False, 'half-close-never-ends', case, str(exc))
+        except Exception as exc:
+            ctx.check('iteration ends without exception', False, f'half-close-raised:{type(exc).__name__}', case, str(exc))
+        ctx.check('delivered == complete messages before the cut', got == want, 'half-close-differs', case,
+                  lambda: {'got': [m.hex() for m in got], 'want': [m.hex() for m in want]})
+        ctx.check('port reports closed after disconnect', port.closed, 'half-close-not-closed', case, None)
+        b.settimeout(5.0)
+        try:
+            data = b.recv(16)
+            seen = data == b''
+        except (socket.timeout, TimeoutError):
+            seen = False
+        except OSError:
+            seen = True          # a reset also ends the connection
+        ctx.check('close is seen by the peer', seen, 'half-close:peer-never-sees-the-disconnect', case,
+                  {'port.closed': port.closed, 'fileno': port._socket.fileno()})
+    finally:
+        mido.ports.sleep = orig
+        try:
+            port.close()
+        except Exception:
+            pass
+        b.close()
+        a.close()
+
+
 def concurrent_ports_case(ctx, seed, nports=3, nmsgs=400):
     """Several socket ports of one process, each iterated by its own thread while the peers write
     (free-running threads with a switch interval of a microsecond): every port yields exactly its own
@@ -898,6 +948,10 @@ def run(ctx):
         reply_to_departed_peer_case(ctx, f'{ctx.seed}:{ctx.shard}:e{j}', sends_after_reset=1 + (j + ctx.shard) % 3)
         ctx.nontrivial(('departed-write', ctx.seed, ctx.shard, j))
         n += 1
+    for j in range(3 if ctx.tier == 'quick' else 100):
+        half_close_case(ctx, f'{ctx.seed}:{ctx.shard}:hc{j}')
+        ctx.nontrivial(('half-close', ctx.seed, ctx.shard, j))
+        n += 1
     if ctx.shard in (1 % ctx.nshards, 9 % ctx.nshards):
         concurrent_ports_case(ctx, f'{ctx.seed}:{ctx.shard}:conc')
         ctx.nontrivial(('concurrent-ports', ctx.seed, ctx.shard))
@@ -920,6 +974,9 @@ def run(ctx):
 
 
 def replay(ctx, case):
+    if case.get('kind') == 'half-close':
+        half_close_case(ctx, case['seed'])
+        return
     if case.get('kind') == 'concurrent-ports':
         concurrent_ports_case(ctx, case['seed'], case['ports'], case['messages_each'])
         return
